@@ -12,6 +12,8 @@ package main
 import (
 	"flag"
 	"fmt"
+	"net/url"
+	"os"
 	"sort"
 	"strconv"
 	"strings"
@@ -21,6 +23,7 @@ import (
 	"bfeverif/harness/internal/vh"
 	"github.com/bfenetworks/bfe/bfe_basic"
 	"github.com/bfenetworks/bfe/bfe_http"
+	"github.com/bfenetworks/bfe/bfe_module"
 	"github.com/bfenetworks/bfe/bfe_modules/mod_prison"
 )
 
@@ -183,6 +186,9 @@ func runCase(op string) string {
 }
 
 func runOnce(op string) (string, int64) {
+	if strings.HasPrefix(op, "m ") {
+		return runModule(op[2:])
+	}
 	cp, stay, th, ac, pc, evs, ok := parse(op)
 	if !ok || cp <= 0 || ac <= 0 || pc <= 0 {
 		return "bad-op", 0
@@ -239,6 +245,484 @@ func runOnce(op string) (string, int64) {
 	return sb.String(), maxW
 }
 
+// ---------------------------------------------------------------- module level with reload histories
+
+type mrule struct {
+	name, cp, stay, th, ac, pc, sel, stop, sign int
+}
+
+func (r mrule) String() string {
+	return fmt.Sprintf("%d.%d.%d.%d.%d.%d.%d.%d.%d", r.name, r.cp, r.stay, r.th, r.ac, r.pc, r.sel, r.stop, r.sign)
+}
+
+type mconf struct {
+	bad   string // "0" well-formed; J broken json, A unknown action, M missing field, N null rule
+	prods []int
+	rules map[int][]mrule
+}
+
+func (c mconf) String() string {
+	var sb strings.Builder
+	sb.WriteString("L" + c.bad)
+	for _, p := range c.prods {
+		var rs []string
+		for _, r := range c.rules[p] {
+			rs = append(rs, r.String())
+		}
+		fmt.Fprintf(&sb, "~%d:%s", p, strings.Join(rs, "+"))
+	}
+	return sb.String()
+}
+
+func pick3(r *vh.Rand, a, b, c int) int { return []int{a, b, c}[r.Intn(3)] }
+
+func genRule(r *vh.Rand, name int) mrule {
+	m := mrule{name: name, cp: 1, stay: pick3(r, 0, 1, 2), th: r.Range(0, 3), ac: 8, pc: 8}
+	if r.Chance(1, 5) {
+		m.cp = 2
+	}
+	if r.Chance(1, 4) {
+		m.ac = r.Range(1, 2)
+	}
+	if r.Chance(1, 4) {
+		m.pc = r.Range(1, 2)
+	}
+	if r.Chance(1, 4) {
+		m.sel = 1
+	}
+	m.stop = r.Intn(3)
+	if r.Chance(1, 2) {
+		m.sign = r.Intn(4)
+	}
+	return m
+}
+
+func genConf(r *vh.Rand) mconf {
+	c := mconf{bad: "0", rules: map[int][]mrule{}}
+	if r.Chance(1, 3) {
+		c.prods = append(c.prods, 0)
+	}
+	c.prods = append(c.prods, 1)
+	if r.Chance(1, 4) {
+		c.prods = append(c.prods, 2)
+	}
+	for _, p := range c.prods {
+		n := r.Range(1, 3)
+		if p == 0 {
+			n = r.Range(0, 1)
+		}
+		names := []int{1, 2, 3, 4, 5}
+		for i := 0; i < n; i++ {
+			j := r.Intn(len(names))
+			c.rules[p] = append(c.rules[p], genRule(r, names[j]))
+			names = append(names[:j], names[j+1:]...)
+		}
+	}
+	return c
+}
+
+// mutateConf derives the next rule file from the current one.
+func mutateConf(r *vh.Rand, a mconf) mconf {
+	b := mconf{bad: "0", rules: map[int][]mrule{}}
+	b.prods = append(b.prods, a.prods...)
+	for p, rs := range a.rules {
+		b.rules[p] = append([]mrule(nil), rs...)
+	}
+	pick := func() (int, int, bool) {
+		var cands [][2]int
+		for _, p := range b.prods {
+			for i := range b.rules[p] {
+				cands = append(cands, [2]int{p, i})
+			}
+		}
+		if len(cands) == 0 {
+			return 0, 0, false
+		}
+		c := cands[r.Intn(len(cands))]
+		return c[0], c[1], true
+	}
+	for k := r.Range(1, 2); k > 0; k-- {
+		p, i, ok := pick()
+		if !ok {
+			break
+		}
+		switch r.Intn(12) {
+		case 0: // same file again
+		case 1: // rename a rule (fresh dictionaries)
+			b.rules[p][i].name = 6 + r.Intn(3)
+		case 2: // remove a rule
+			b.rules[p] = append(b.rules[p][:i:i], b.rules[p][i+1:]...)
+		case 3: // change threshold / periods of a kept rule
+			b.rules[p][i].th = r.Range(0, 3)
+			b.rules[p][i].stay = pick3(r, 0, 1, 2)
+		case 4: // capacities up or down
+			b.rules[p][i].ac = r.Range(1, 9)
+			b.rules[p][i].pc = r.Range(1, 9)
+		case 5: // reorder
+			if n := len(b.rules[p]); n > 1 {
+				b.rules[p][0], b.rules[p][n-1] = b.rules[p][n-1], b.rules[p][0]
+			}
+		case 6: // add a rule
+			b.rules[p] = append(b.rules[p], genRule(r, 9))
+		case 7: // move all rules of the product to another product (state must not follow)
+			q := 3 - p
+			if p == 0 {
+				q = 1
+			}
+			if _, has := b.rules[q]; !has {
+				b.rules[q] = b.rules[p]
+				delete(b.rules, p)
+				for j := range b.prods {
+					if b.prods[j] == p {
+						b.prods[j] = q
+					}
+				}
+			}
+		case 8: // numerically invalid: must be rejected, old table stays
+			switch r.Intn(5) {
+			case 0:
+				b.rules[p][i].cp = 0
+			case 1:
+				b.rules[p][i].th = -1
+			case 2:
+				b.rules[p][i].stay = -1
+			case 3:
+				b.rules[p][i].ac = 0
+			default:
+				b.rules[p][i].pc = -3
+			}
+		case 9: // duplicated rule name
+			b.rules[p] = append(b.rules[p], b.rules[p][i])
+		case 10: // malformed file
+			b.bad = r.Pick("J", "A", "M", "N")
+		case 11: // change action / condition / sign of a kept rule
+			b.rules[p][i].stop = r.Intn(3)
+			b.rules[p][i].sel = r.Intn(2)
+		}
+	}
+	return b
+}
+
+func genM(r *vh.Rand) string {
+	conf := genConf(r)
+	steps := []string{conf.String()}
+	// clients
+	type cl struct{ h, c, q1, q2 string; p int }
+	var clients []cl
+	for i := 0; i < r.Range(1, 3); i++ {
+		clients = append(clients, cl{r.Pick("a", "b", "c"), r.Pick("x", "y", "_", "-"), r.Pick("v", "w", "-", "_"), r.Pick("-", "z", "v"), r.Intn(5)})
+	}
+	if r.Chance(1, 3) { // a client that cannot be signed by the header variants
+		clients = append(clients, cl{r.Pick("-", "_"), "x", "-", "-", 3})
+	}
+	t := 0
+	phase := func(dur int) {
+		end := t + dur
+		n := r.Range(3, 9)
+		var ts []int
+		for i := 0; i < n; i++ {
+			ts = append(ts, r.Range(t, end))
+		}
+		sort.Ints(ts)
+		for _, x := range ts {
+			c := clients[r.Intn(len(clients))]
+			if r.Chance(2, 3) {
+				c = clients[0]
+			}
+			prod := 1
+			if r.Chance(1, 8) {
+				prod = pick3(r, 0, 2, 2)
+			}
+			sel := 1
+			if r.Chance(1, 3) {
+				sel = 0
+			}
+			steps = append(steps, fmt.Sprintf("Q%d~%d~%d~%s~%s~%d~%s~%s", x, prod, sel, c.h, c.c, c.p, c.q1, c.q2))
+		}
+		t = end
+	}
+	phase(r.Range(120, 240))
+	for k := r.Range(1, 3); k > 0; k-- {
+		conf2 := mutateConf(r, conf)
+		steps = append(steps, conf2.String())
+		if conf2.bad == "0" && confValid(conf2) {
+			conf = conf2
+		}
+		t += 20
+		phase(r.Range(150, 450))
+	}
+	return "m sc=4;steps=" + strings.Join(steps, "|")
+}
+
+func confValid(c mconf) bool {
+	for _, p := range c.prods {
+		seen := map[int]bool{}
+		for _, r := range c.rules[p] {
+			if r.cp <= 0 || r.th < 0 || r.stay < 0 || r.ac <= 0 || r.pc <= 0 || seen[r.name] {
+				return false
+			}
+			seen[r.name] = true
+		}
+	}
+	return true
+}
+
+var prodNames = []string{"global", "p1", "p2"}
+var mpaths = []string{"/u/12/ab", "/u/12/cd", "/u/13/ab", "/x/12/ab", "/u/12/ab/extra"}
+
+func ruleJSON(r mrule, bad string) string {
+	cond := "default_t()"
+	if r.sel == 1 {
+		cond = "req_header_key_in(\\\"X-Sel\\\")"
+	}
+	sign := `{"Header":["X-Verif-Key"]}`
+	switch r.sign {
+	case 1:
+		sign = `{"Header":["X-Verif-Key"],"Cookie":["UID"]}`
+	case 2:
+		sign = `{"UrlRegexp":"^/u/(\\d+)/(\\w+)"}`
+	case 3:
+		sign = `{"Query":["q1|q2"]}`
+	}
+	act := fmt.Sprintf(`{"Cmd":"REQ_HEADER_SET","Params":["X-Bfe-Jail-%d","1"]}`, r.name)
+	switch r.stop {
+	case 1:
+		act = `{"Cmd":"CLOSE","Params":[]}`
+	case 2:
+		act = `{"Cmd":"FINISH","Params":[]}`
+	}
+	if bad == "A" {
+		act = `{"Cmd":"DROP","Params":[]}`
+	}
+	th := fmt.Sprintf(`,"Threshold":%d`, r.th)
+	if bad == "M" {
+		th = ""
+	}
+	return fmt.Sprintf(`{"Name":"r%d","Cond":"%s","AccessSignConf":%s,"Action":%s,"CheckPeriod":%d,"StayPeriod":%d%s,"AccessDictSize":%d,"PrisonDictSize":%d}`,
+		r.name, cond, sign, act, r.cp, r.stay, th, r.ac, r.pc)
+}
+
+func confJSON(c mconf, version int) string {
+	var ps []string
+	first := true
+	for _, p := range c.prods {
+		var rs []string
+		for _, r := range c.rules[p] {
+			b := "0"
+			if first && (c.bad == "A" || c.bad == "M") {
+				b = c.bad
+			}
+			first = false
+			rs = append(rs, ruleJSON(r, b))
+		}
+		if c.bad == "N" && len(ps) == 0 {
+			rs = append(rs, "null")
+		}
+		ps = append(ps, fmt.Sprintf(`"%s":[%s]`, prodNames[p], strings.Join(rs, ",")))
+	}
+	js := fmt.Sprintf(`{"Version":"v%d","Config":{%s}}`, version, strings.Join(ps, ","))
+	if c.bad == "J" {
+		js = js[:len(js)-2]
+	}
+	return js
+}
+
+func parseConf(s string) (mconf, bool) {
+	c := mconf{rules: map[int][]mrule{}}
+	f := strings.Split(s, "~")
+	c.bad = f[0]
+	for _, ps := range f[1:] {
+		pr := strings.SplitN(ps, ":", 2)
+		if len(pr) != 2 {
+			return c, false
+		}
+		p, err := strconv.Atoi(pr[0])
+		if err != nil || p < 0 || p > 2 {
+			return c, false
+		}
+		c.prods = append(c.prods, p)
+		if pr[1] == "" {
+			c.rules[p] = nil
+			continue
+		}
+		for _, rs := range strings.Split(pr[1], "+") {
+			x := strings.Split(rs, ".")
+			if len(x) != 9 {
+				return c, false
+			}
+			var v [9]int
+			for i := range x {
+				n, err := strconv.Atoi(x[i])
+				if err != nil {
+					return c, false
+				}
+				v[i] = n
+			}
+			c.rules[p] = append(c.rules[p], mrule{v[0], v[1], v[2], v[3], v[4], v[5], v[6], v[7], v[8]})
+		}
+	}
+	return c, true
+}
+
+func mreq(f []string) (*bfe_basic.Request, int, bool) {
+	ms, e1 := strconv.Atoi(f[0])
+	prod, e2 := strconv.Atoi(f[1])
+	p, e3 := strconv.Atoi(f[5])
+	if e1 != nil || e2 != nil || e3 != nil || prod < 0 || prod > 2 || p < 0 || p >= len(mpaths) || ms < 0 {
+		return nil, 0, false
+	}
+	req := new(bfe_basic.Request)
+	req.HttpRequest = new(bfe_http.Request)
+	req.HttpRequest.Header = make(bfe_http.Header)
+	req.Session = new(bfe_basic.Session)
+	req.Context = make(map[interface{}]interface{})
+	req.Route.Product = prodNames[prod]
+	val := func(s string) string {
+		if s == "_" {
+			return ""
+		}
+		return s
+	}
+	if f[2] == "1" {
+		req.HttpRequest.Header.Set("X-Sel", "1")
+	}
+	if f[3] != "-" {
+		req.HttpRequest.Header.Set("X-Verif-Key", val(f[3]))
+	}
+	if f[4] != "-" {
+		req.HttpRequest.Header.Set("Cookie", "UID="+val(f[4]))
+	}
+	uri := mpaths[p]
+	var qs []string
+	if f[6] != "-" {
+		qs = append(qs, "q1="+val(f[6]))
+	}
+	if f[7] != "-" {
+		qs = append(qs, "q2="+val(f[7]))
+	}
+	if len(qs) > 0 {
+		uri += "?" + strings.Join(qs, "&")
+	}
+	req.HttpRequest.RequestURI = uri
+	u, err := url.ParseRequestURI(uri)
+	if err != nil {
+		return nil, 0, false
+	}
+	req.HttpRequest.URL = u
+	req.HttpRequest.Host = "www.example.org"
+	return req, ms, true
+}
+
+func runModule(rest string) (string, int64) {
+	kv := map[string]string{}
+	for _, f := range strings.Split(rest, ";") {
+		p := strings.SplitN(f, "=", 2)
+		if len(p) == 2 {
+			kv[p[0]] = p[1]
+		}
+	}
+	sc, err := strconv.Atoi(kv["sc"])
+	if err != nil || sc < 1 || kv["steps"] == "" {
+		return "bad-op", 0
+	}
+	mod := mod_prison.VerifNewModule(int64(sc))
+	var outs, times []string
+	var maxW int64
+	version := 0
+	start := time.Now()
+	base := start.UnixNano()
+	for _, st := range strings.Split(kv["steps"], "|") {
+		switch {
+		case strings.HasPrefix(st, "L"):
+			c, ok := parseConf(st[1:])
+			if !ok {
+				return "bad-op", 0
+			}
+			version++
+			fh, err := os.CreateTemp("", "verif-c53-*.json")
+			if err != nil {
+				return "err:tmpfile", 0
+			}
+			fh.WriteString(confJSON(c, version))
+			fh.Close()
+			res := "ok"
+			func() {
+				defer func() {
+					if e := recover(); e != nil {
+						res = "panic"
+					}
+				}()
+				if err := mod.Load(fh.Name()); err != nil {
+					res = "err"
+				}
+			}()
+			os.Remove(fh.Name())
+			outs = append(outs, res)
+		case strings.HasPrefix(st, "Q"):
+			f := strings.Split(st[1:], "~")
+			if len(f) != 8 {
+				return "bad-op", 0
+			}
+			req, ms, ok := mreq(f)
+			if !ok {
+				return "bad-op", 0
+			}
+			if d := time.Duration(ms)*time.Millisecond - time.Since(start); d > 0 {
+				time.Sleep(d)
+			}
+			b := time.Now().UnixNano()
+			ret := mod.Handle(req)
+			a := time.Now().UnixNano()
+			b, a = b-base, a-base
+			if b < 0 {
+				b = 0
+			}
+			if a < b {
+				a = b
+			}
+			if a-b > maxW {
+				maxW = a - b
+			}
+			o := "?"
+			switch ret {
+			case bfe_module.BfeHandlerGoOn:
+				o = "G"
+			case bfe_module.BfeHandlerClose:
+				o = "C"
+			case bfe_module.BfeHandlerFinish:
+				o = "F"
+			}
+			var names []string
+			for n := 1; n <= 9; n++ {
+				if _, has := req.HttpRequest.Header["X-Bfe-Jail-"+strconv.Itoa(n)]; has {
+					names = append(names, strconv.Itoa(n))
+				}
+			}
+			outs = append(outs, o+strings.Join(names, "."))
+			times = append(times, fmt.Sprintf("%d-%d", b, a))
+		default:
+			return "bad-op", 0
+		}
+	}
+	lens := mod.Lens()
+	var ls []string
+	for p := 0; p < 3; p++ {
+		for n := 1; n <= 9; n++ {
+			if v, ok := lens[prodNames[p]+"/r"+strconv.Itoa(n)]; ok {
+				ls = append(ls, fmt.Sprintf("%d/%d:%d:%d", p, n, v[0], v[1]))
+			}
+		}
+	}
+	l, t := "-", "-"
+	if len(ls) > 0 {
+		l = strings.Join(ls, ",")
+	}
+	if len(times) > 0 {
+		t = strings.Join(times, ",")
+	}
+	return fmt.Sprintf("o=%s;len=%s;t=%s", strings.Join(outs, ","), l, t), maxW
+}
+
 // ---------------------------------------------------------------- look-ahead batching
 
 const batch = 48
@@ -249,6 +733,13 @@ var (
 	pending = map[string]chan string{}
 	made    int
 )
+
+func genAny(r *vh.Rand) string {
+	if r.Chance(1, 3) {
+		return genM(r)
+	}
+	return gen1(r)
+}
 
 func gen(r *vh.Rand) string {
 	if len(queue) == 0 {
@@ -266,7 +757,7 @@ func gen(r *vh.Rand) string {
 			n = 1
 		}
 		for i := 0; i < n; i++ {
-			op := gen1(r)
+			op := genAny(r)
 			queue = append(queue, op)
 			made++
 			mu.Lock()
